@@ -201,6 +201,11 @@ func (d *Decoder) decodeNALUs(pkt *rtp.Packet) ([][]byte, error) {
 		nalus = [][]byte{pkt.Payload}
 	}
 
+	// a fragmented NALU that contains start codes only
+	if len(nalus) == 0 {
+		return nil, fmt.Errorf("packet doesn't contain any NALU")
+	}
+
 	return nalus, nil
 }
 
